@@ -53,7 +53,10 @@ META = {
         "performed by inline_block(arg_values=…) is an in-place modification of the users and is demanded.  "
         "Patterns mutate the IR only through the rewriter (attribute edits are followed by notify_op_modified) and "
         "only mention attached ops.  Root region = module body.  move_region_contents_to_new_regions, inline_region, "
-        "replace_uses_with_if, replace_value_with_new_type and folding are not exercised."
+        "and folding are not exercised.  replace_uses_with_if is exercised with predicates by use.index, by user "
+        "operation, strict subsets, all and none on values used in several operand slots of one op and across ops; "
+        "replace_value_with_new_type on results (owner must be notified) and on block arguments (users of a retyped "
+        "value keep the 'same' operand: not counted as modified)."
     ),
     "rule": (
         "case = (IR spec, pattern set, walk configuration, schedule); non-trivial = at least one match executed a "
@@ -109,6 +112,21 @@ class Labels:
         if k not in self.blocks:
             self.set_block(b, self.next_block)
         return self.blocks[k]
+
+    def value(self, v: Any) -> int:
+        """stable identity of a block argument (survives index shifts; a retyped argument is aliased to
+        the argument it replaces, see `alias`)"""
+        vals = self.__dict__.setdefault("vals", {})
+        k = id(v)
+        if k not in vals:
+            vals[k] = len(vals)
+            self.keep.append(v)
+        return vals[k]
+
+    def alias(self, new: Any, old: Any) -> None:
+        vals = self.__dict__.setdefault("vals", {})
+        vals[id(new)] = self.value(old)
+        self.keep.append(new)
 
 
 def build_ir(spec: dict) -> tuple[Any, Labels]:
@@ -187,6 +205,11 @@ def gen_ir(rng: random.Random, size: int, attrs: list[str], multi_block: bool) -
                 o["pure"] = 1
             nops = rng.choice([0, 0, 1, 1, 2]) if vis else 0
             o["o"] = [rng.choice(vis) for _ in range(nops)]
+            if o["o"] and rng.random() < 0.4:
+                # the same value in several operand slots of one op
+                o["o"].insert(rng.randint(0, len(o["o"])), rng.choice(o["o"]))
+                if rng.random() < 0.3:
+                    o["o"].append(o["o"][0])
             o["nr"] = rng.choice([0, 1, 1, 1, 2])
             a = {}
             for name in attrs:
@@ -310,6 +333,7 @@ def make_patterns(names: list, lab: Labels) -> list[Any]:
     from xdsl.rewriter import BlockInsertPoint, InsertPoint
 
     T = TestType("t")
+    U = TestType("u")
 
     def attr(op: Any, name: str) -> int | None:
         a = op.attributes.get(name)
@@ -473,7 +497,69 @@ def make_patterns(names: list, lab: Labels) -> list[Any]:
             inner = new_op((), 1, {"c": 1})
             rewriter.replace(op, new_op(op.operands, len(op.results), a, [Region([Block([inner])])]))
 
+    class RauwIf(RewritePattern):
+        """redirect a subset of the uses of the first result to the first operand (replace_uses_with_if);
+        kind 0: by use.index, 1: by user operation, 2: strict alternating subset, 3: all, 4: none"""
+        def __init__(self, kind: int):
+            self.kind = kind
+
+        def match_and_rewrite(self, op, rewriter: PatternRewriter):
+            if attr(op, "ui") is None or not op.results or not op.operands:
+                return
+            v = op.results[0]
+            uses = list(v.uses)
+            if not uses:
+                return
+            k = self.kind
+            if k == 0:
+                pred = lambda use: use.index == 0  # noqa: E731
+            elif k == 1:
+                first = uses[0].operation
+                pred = lambda use: use.operation is first  # noqa: E731
+            elif k == 2:
+                acc = {(id(u.operation), u.index) for i, u in enumerate(uses) if i % 2 == 0}
+                pred = lambda use: (id(use.operation), use.index) in acc  # noqa: E731
+            elif k == 3:
+                pred = lambda use: True  # noqa: E731
+            else:
+                pred = lambda use: False  # noqa: E731
+            rewriter.replace_uses_with_if(v, op.operands[0], pred)
+
+    class DedupOperand(RewritePattern):
+        """an op that uses one value in several operand slots redirects only the first of those slots to
+        the first result of the previous op (the user keeps using the old value elsewhere)"""
+        def match_and_rewrite(self, op, rewriter: PatternRewriter):
+            if attr(op, "ud") is None or op.name == "builtin.module":
+                return
+            prev = op.prev_op
+            if prev is None or not prev.results:
+                return
+            to = prev.results[0]
+            for i, v in enumerate(op.operands):
+                if v is not to and sum(1 for w in op.operands if w is v) >= 2:
+                    rewriter.replace_uses_with_if(v, to, lambda use: use.operation is op and use.index == i)
+                    return
+
+    class Retype(RewritePattern):
+        """replace_value_with_new_type on the first result (arg=0) / first block argument (arg=1)"""
+        def __init__(self, arg: int):
+            self.arg = arg
+
+        def match_and_rewrite(self, op, rewriter: PatternRewriter):
+            if op.name == "builtin.module":
+                return
+            if not self.arg:
+                if attr(op, "ty") is not None and op.results and op.results[0].type == T:
+                    rewriter.replace_value_with_new_type(op.results[0], U)
+            else:
+                if attr(op, "tb") is None or not op.regions:
+                    return
+                blocks = list(op.regions[0].blocks)
+                if blocks and blocks[0].args and blocks[0].args[0].type == T:
+                    rewriter.replace_value_with_new_type(blocks[0].args[0], U)
+
     table = {
+        "rauw_if": RauwIf, "dedup": DedupOperand, "retype": Retype,
         "erase": Erase, "replace": Replace, "forward": Forward, "insert": Insert, "modify": Modify,
         "inline": Inline, "barg_add": BlockArgAdd, "barg_erase": BlockArgErase,
         "barg_replace": BlockArgReplace, "rauw": Rauw, "create_block": CreateBlock,
@@ -485,12 +571,14 @@ def make_patterns(names: list, lab: Labels) -> list[Any]:
 PATTERN_ATTR = {
     "erase": "e", "replace": "r", "forward": "fw", "insert": "i", "modify": "c", "inline": "l",
     "barg_add": "ba", "barg_erase": "be", "barg_replace": "br", "rauw": "u", "create_block": "cb",
-    "replace_region": "rr",
+    "replace_region": "rr", "rauw_if": "ui", "dedup": "ud", "retype": "ty",
 }
 PATTERN_VARIANTS = [
     ["erase"], ["replace", 0], ["replace", 1], ["forward"], ["insert", 0, 0], ["insert", 1, 1], ["insert", 0, 1],
     ["modify"], ["inline", 0], ["inline", 1], ["barg_add"], ["barg_erase"], ["barg_replace"], ["rauw"],
     ["create_block", 0], ["create_block", 1], ["replace_region"],
+    ["rauw_if", 0], ["rauw_if", 1], ["rauw_if", 2], ["rauw_if", 3], ["rauw_if", 4], ["dedup"],
+    ["retype", 0], ["retype", 1],
 ]
 
 
@@ -508,7 +596,9 @@ def show_action(a: tuple) -> str:
         return " ".join(map(str, ["rauw", int(a[1]), *a[2]]))
     if k == "erase":
         return " ".join(map(str, ["erase", a[1], *a[2], "d", *a[3]]))
-    if k == "mod":
+    if k in ("mod", "modp"):
+        # modp: modification event for the op owning a retyped block argument (delivered by the code,
+        # not demanded by the sentence)
         return f"mod {a[1]}"
     if k == "barg":
         return "barg"
@@ -540,6 +630,19 @@ def patched_rewriter(rec: dict, lab: Labels, root_region: Any):
 
     def add(a: tuple) -> None:
         rec["cur"].append(a)
+
+    def wrap_retype():
+        # replace_value_with_new_type creates a new value object standing for the same SSA value
+        orig = PatternRewriter.replace_value_with_new_type
+        saved["replace_value_with_new_type"] = orig
+
+        def wrapper(self, val, new_type):
+            b_retype(self, val, new_type)
+            new = orig(self, val, new_type)
+            lab.alias(new, val)
+            return new
+
+        PatternRewriter.replace_value_with_new_type = wrapper
 
     def need_attached(ops, what: str) -> None:
         # hypothesis `Disciplined.pat_wf` of the Lean theorems: ops handed to listeners are attached
@@ -598,6 +701,27 @@ def patched_rewriter(rec: dict, lab: Labels, root_region: Any):
         need_attached([u for r in op.results for u in uses_of(r)], "replace: user")
         add(("rep", lab.op(op), [lab.op(u) for r in op.results for u in uses_of(r)]))
 
+    def b_rauw_if(self, from_value, to_value, predicate):
+        if from_value is to_value:
+            return
+        # the uses the predicate accepts, in the order Value.replace_uses_with_if visits them
+        hit = [u.operation for u in from_value.uses if predicate(u)]
+        need_attached(hit, "replace_uses_with_if: user")
+        add(("rauw", False, [lab.op(o) for o in hit], "if"))
+
+    def b_retype(self, val, new_type):
+        from xdsl.ir import BlockArgument, OpResult
+        if isinstance(val, OpResult):
+            need_attached([val.op], "replace_value_with_new_type: owner")
+            add(("mod", lab.op(val.op)))
+        elif isinstance(val, BlockArgument):
+            parent = val.block.parent_op()
+            if parent is None:
+                add(("barg",))
+            else:
+                need_attached([parent], "replace_value_with_new_type: parent op")
+                add(("modp", lab.op(parent)))
+
     def b_unsupported(name):
         def f(self, *a, **k):
             raise core.InfraError(f"pattern used unsupported rewriter method {name}")
@@ -613,8 +737,9 @@ def patched_rewriter(rec: dict, lab: Labels, root_region: Any):
         wrap("inline_block", b_inline)
         wrap("create_block", b_blk)
         wrap("handle_operation_replacement", b_rep)
-        for n in ("replace_uses_with_if", "replace_value_with_new_type", "inline_region",
-                  "move_region_contents_to_new_regions"):
+        wrap("replace_uses_with_if", b_rauw_if)
+        wrap_retype()
+        for n in ("inline_region", "move_region_contents_to_new_regions"):
             wrap(n, b_unsupported(n))
         yield
     finally:
@@ -641,7 +766,7 @@ def snapshot(root_region: Any, lab: Labels) -> dict[int, tuple]:
         if isinstance(v, OpResult):
             return ("r", lab.op(v.op), v.index)
         if isinstance(v, BlockArgument):
-            return ("a", id(v))
+            return ("a", lab.value(v))
         return ("?", id(v))
 
     out = {}
@@ -930,7 +1055,8 @@ def oracle(case: dict, obs: dict) -> list[tuple[str, str, str]]:
         # (5) action flag set whenever the match mutated the IR
         if mutated and not m["flag"]:
             kinds = sorted({a[0] for a in m["acts"]})
-            site = R + (".create_block" if kinds == ["blk"] else ".has_done_action")
+            site = R + (".create_block" if kinds == ["blk"] else
+                        ".replace_uses_with_if" if any(a[0] == "rauw" and len(a) > 3 for a in m["acts"]) else ".has_done_action")
             out.append((site, "has_done_action false after a match that mutated the IR",
                         f"match on op {m['op']} made calls {kinds} and changed the IR but has_done_action is False"))
         # (4) every insertion / removal / replacement / modification is reported
@@ -964,6 +1090,8 @@ def oracle(case: dict, obs: dict) -> list[tuple[str, str, str]]:
             kinds = [a[0] for a in m["acts"]]
             if "inline" in kinds and all(x.startswith("m") for x in missing):
                 site, sig = R + ".inline_block", "operand rewrite of the block-argument users is not reported to listeners"
+            elif any(a[0] == "rauw" and len(a) > 3 for a in m["acts"]) and all(x.startswith("m") for x in missing):
+                site, sig = R + ".replace_uses_with_if", "operand rewrite of an accepted use is not reported to listeners"
             else:
                 site, sig = R + ".handle_operation_*", "rewriter call not reported to the registered listeners"
             out.append((site, sig, f"match on op {m['op']}: calls {[show_action(a) for a in m['acts']]} "
@@ -1067,8 +1195,12 @@ def seed_cases() -> list[dict]:
         "flat": {"bid": 0, "ops": [op1(0, nr=1, a={"c": 1, "i": 1, "r": 1, "u": 1, "rr": 1}),
                                    op1(1, o=[["r", 0, 0]], nr=1, a={"e": 1, "fw": 1, "u": 1, "c": 2}),
                                    op1(2, o=[["r", 1, 0]], nr=1, a={"e": 1, "r": 2, "i": 2})]},
+        "dup": {"bid": 0, "ops": [op1(0, nr=1, a={"ty": 1}), op1(1, o=[["r", 0, 0]], nr=1, a={"ui": 1, "u": 1, "ty": 1}),
+                                  op1(2, o=[["r", 1, 0], ["r", 1, 0]], a={"ud": 1}),
+                                  op1(3, o=[["r", 0, 0], ["r", 1, 0], ["r", 1, 0]], nr=1, a={"ud": 1, "fw": 1}),
+                                  op1(4, o=[["r", 1, 0], ["r", 3, 0], ["r", 1, 0]], a={"ud": 1, "e": 1})]},
         "region": {"bid": 0, "ops": [op1(0, nr=1), op1(1, o=[["r", 0, 0]], nr=1,
-                   a={"l": 1, "ba": 1, "be": 1, "br": 1, "cb": 1, "e": 1, "r": 1},
+                   a={"l": 1, "ba": 1, "be": 1, "br": 1, "cb": 1, "e": 1, "r": 1, "tb": 1, "ty": 1},
                    r=[[{"bid": 1, "na": 1, "ops": [op1(2, o=[["a", 1, 0]], nr=1, a={"c": 1, "e": 1}),
                                                   op1(3, o=[["r", 2, 0]], nr=0, a={"c": 1})]}]])]},
         "dead_chain": {"bid": 0, "ops": [op1(0, nr=1, pure=1, a={"c": 1}), op1(1, o=[["r", 0, 0]], nr=1, pure=1),
@@ -1102,12 +1234,17 @@ def gen_case(rng: random.Random, max_size: int) -> dict:
     for pv in pvs:
         if pv[0] in seen or (pv[0] == "barg_erase" and "barg_add" in seen) or (pv[0] == "barg_add" and "barg_erase" in seen):
             continue   # add/erase of unused block arguments together would not terminate
+        dedup_ok = {"dedup", "modify", "insert", "erase", "retype", "barg_add", "create_block"}
+        if (pv[0] == "dedup" and not seen <= dedup_ok) or ("dedup" in seen and pv[0] not in dedup_ok):
+            continue   # dedup moves a use down to the previous op's result, the forwarding patterns move it
+                       # back up: together they would not terminate
         if post and pv[0] == "create_block":
             continue   # region_dce deletes the unreachable new block again: would not terminate
         seen.add(pv[0]); pats.append(pv)
     if not pats:
         pats = [["modify"]]
-    attrs = sorted({PATTERN_ATTR[p[0]] for p in pats} | ({"c"} if rng.random() < 0.3 else set()))
+    attrs = sorted({("tb" if p == ["retype", 1] else PATTERN_ATTR[p[0]]) for p in pats}
+                   | ({"c"} if rng.random() < 0.3 else set()))
     # region_dce erases unreachable blocks wholesale (no listener call, C13's business): single-block
     # regions only when the post-walk function is installed
     ir = gen_ir(rng, rng.randint(1, max_size), attrs, rng.random() < 0.5 and not post)
